@@ -27,13 +27,14 @@ Descs == UNION {ArrayDescsOf(sh) : sh \in Shapes} \cup OobDescs
     \cup {D(k, <<>>, e, "na", FALSE) : k \in {"int", "float"}, e \in {"pos", "zero", "neg"}}
     \cup {D("str", <<>>, e, "na", FALSE) : e \in {"right", "left", "other"}}
     \cup {D("rotation", <<>>, "na", "na", FALSE)} \cup {D("rotation", <<n>>, "na", "na", FALSE) : n \in 0..RotMax}
-    \cup {D("callable", <<>>, e, "na", FALSE) : e \in {"good", "none_ret", "badargs", "badshape", "badtype", "raises"}}
+    \* callables: every pair of per-field answers (B, H), and a wrong signature
+    \cup {D("callable", <<>>, b, h, FALSE) : b \in CallAns, h \in CallAns} \cup {D("callable", <<>>, "badargs", "na", FALSE)}
 
 ForcedInts(v) == v.kind = "array" /\ Size(v.shape) = 1 /\ v.entries = "zero"     \* a single entry 0 is integer-valued
 \* the geometric refinements of a shape are only exercised where a geometric meaning is documented, the integer-valued
 \* variant of an array only for index arrays (for every other slot the driver alternates integer and float instances
 \* of the same descriptor and logs what it built)
-Relevant(c, a, v) == /\ (v.geom \in {"na", "ok"} \/ a \in {"dimension", "vertices"})
+Relevant(c, a, v) == /\ (v.kind # "array" \/ v.geom \in {"na", "ok"} \/ a \in {"dimension", "vertices"})
                      /\ (a = "faces" \/ v.ints = ForcedInts(v))
                      /\ (v.entries = "oob" => a = "faces")
 Triples == {t \in Pairs \X Descs : Relevant(t[1][1], t[1][2], t[2])}
